@@ -1,5 +1,7 @@
 import PybtexModel.Drv.Json
 import PybtexModel.Spec.OrderedMapU
+import PybtexModel.Spec.CISetAlgebra
+import PybtexModel.Gen.C13Methods
 open Lean
 namespace Pybtex.Drv.C13
 open Pybtex.Uni
@@ -91,8 +93,8 @@ def cimap (j : Json) : Except String Json := do
   let m := OMap.ofPairs norm init
   if cls == "ddict" then
     -- CaseInsensitiveDefaultDict(int): factory value 0; `init` was written with `d[k] = v`
-    let f := CIDict.DD.step norm (0 : Int)
-    let g := OMap.stepD norm (0 : Int)
+    let f := CIDict.DD.step norm Gen.c13IntFactory
+    let g := OMap.stepD norm Gen.c13IntFactory
     pure (obj [("out", arr (keepTail j (snap f pr d Json.null :: runWith f pr d ops))),
                ("spec", arr (keepTail j (snap g pr m Json.null :: runWith g pr m ops)))])
   else
@@ -158,6 +160,141 @@ def lowerOp (j : Json) : Except String Json := do
 
 end Pybtex.Drv.C13
 
+/-! ### operators inherited from `collections.abc` (`Model/CIMapX.lean`) -/
 namespace Pybtex.Drv.C13
-def handlers : List (String × (Json → Except String Json)) := [("cimap", cimap), ("ciset", ciset), ("cilower", lowerOp)]
+open Pybtex.Uni
+
+def parseOther (j : Json) : Except String Other := do
+  let b ← j.getObjVal? "b"
+  let kind ← (← b.getObjVal? "kind").getStr?
+  match kind with
+  | "list" => pure (.list (← getStrList b "l"))
+  | "ciset" => pure (.ciset (CISet.ofList norm (← getStrList b "l")))
+  | "self" => pure .self
+  | _ => throw s!"unknown operand kind {kind}"
+
+/-- the other operand seen from the reference: its members do not depend on how it is represented -/
+def setSnap (pr : List Str) (s : CISet) : Json := ssnap (CISet.step norm) CISet.spellings pr s Json.null
+
+/-- `cisetbin`: the set `a` (constructor list + history), an operand `b` and one operator `f`.
+`out`: result of the operator (`res`: truth value of a predicate, `result`: snapshot of a NEW set), and the snapshot of `a`
+afterwards; `spec`: the reference's truth value / members of the result / members of `a` afterwards. -/
+def cisetbin (j : Json) : Except String Json := do
+  let init ← getStrList j "a"
+  let ops ← (← getArr j "aops").mapM parseSOp
+  let pr ← getStrList j "probe"
+  let o ← parseOther j
+  let f ← (← j.getObjVal? "f").getStr?
+  let s := (CISet.run norm (CISet.ofList norm init) ops).1
+  let m : OSet := (OSet.run norm (init.foldl (OSet.add norm) []) ops).1
+  let t : CISet := match o with | .ciset t => t | _ => s
+  let tm : OSet := match o with | .ciset t => t.keys | _ => m
+  let fresh (r : CISet) (sp : List Str) : Except String Json :=
+    pure (obj [("out", obj [("res", Json.null), ("result", setSnap pr r), ("self", setSnap pr s)]),
+               ("spec", obj [("res", Json.null), ("members", strs sp), ("self_members", strs (OSet.members m))])])
+  let inplace (r : CISet) (sp : List Str) : Except String Json :=
+    pure (obj [("out", obj [("res", Json.null), ("result", Json.null), ("self", setSnap pr r)]),
+               ("spec", obj [("res", Json.null), ("members", Json.null), ("self_members", strs sp)])])
+  let pred (b c : Bool) : Except String Json :=
+    pure (obj [("out", obj [("res", Json.bool b), ("result", Json.null), ("self", setSnap pr s)]),
+               ("spec", obj [("res", Json.bool c), ("members", Json.null), ("self_members", strs (OSet.members m))])])
+  match f with
+  | "and" => fresh (CISet.band norm s o) (OSet.specAnd norm m o)
+  | "or" => fresh (CISet.bor norm s o) (OSet.specOr norm m o)
+  | "sub" => fresh (CISet.bsub norm s o) (OSet.specSub norm m o)
+  | "rsub" => fresh (CISet.brsub norm s o) (OSet.specRsub norm m o)
+  | "xor" => fresh (CISet.bxor norm s o) (OSet.specXor norm m o)
+  | "iand" => inplace (CISet.iand norm s o) (OSet.specAnd norm m o)
+  | "ixor" => inplace (CISet.ixor norm s o) (OSet.specXor norm m o)
+  | "isub" => inplace (CISet.isubO norm s o) (OSet.specSub norm m o)
+  | "ior" => inplace (CISet.iorO norm s o) (OSet.specOr norm m o)
+  | "isdisjoint" => pred (CISet.isDisjoint norm s o) (OSet.specDisjoint norm m o)
+  | "le" => pred (CISet.le norm s t) (OSet.specLe m tm)
+  | "lt" => pred (CISet.lt norm s t) (OSet.specLt m tm)
+  | "ge" => pred (CISet.ge norm s t) (OSet.specLe tm m)
+  | "gt" => pred (CISet.gt norm s t) (OSet.specLt tm m)
+  | "eq" => pred (CISet.eqSet norm s t) (OSet.specEq m tm)
+  | "ne" => pred (!CISet.eqSet norm s t) (!OSet.specEq m tm)
+  | _ => throw s!"unknown set operator {f}"
+
+/-- the state of a mapping operand: class, constructor pairs, history; `items()` of it as its class computes them
+(`none` = `KeyError`), and the reference state -/
+def mapOperand (cls : String) (init : List (Str × Int)) (ops : List (Op Int)) : Option (List (Str × Int)) × OMap Int :=
+  if cls == "ddict" then
+    let d := (CIDict.DD.run norm Gen.c13IntFactory (CIDict.ofPairs norm init) ops).1
+    (some (CIDict.DD.items norm Gen.c13IntFactory d), (OMap.runD norm Gen.c13IntFactory (OMap.ofPairs norm init) ops).1)
+  else
+    let d := (CIDict.run norm (CIDict.ofPairs norm init) ops).1
+    (CIDict.items norm d, (OMap.run norm (OMap.ofPairs norm init) ops).1)
+
+/-- `cimapx`: `f` = `eq` / `ne` between two mappings (`bcls` = `plain`: a Python `dict` with the items `b`), or `items_lower` of `a`. -/
+def cimapx (j : Json) : Except String Json := do
+  let acls ← (← j.getObjVal? "cls").getStr?
+  let a ← parsePairs (← getArr j "a")
+  let aops ← (← getArr j "aops").mapM parseOp
+  let f ← (← j.getObjVal? "f").getStr?
+  let (ia, ma) := mapOperand acls a aops
+  if f == "items_lower" then
+    let out := match ia with
+      | some its => itemsJ (its.map fun p => (norm p.1, p.2))
+      | none => Json.str "KeyError"
+    return obj [("out", out), ("spec", itemsJ (OMap.itemsLower ma))]
+  if f == "keys_has" || f == "items_has" || f == "values_has" then
+    -- containment in the views; the reference: the map has the key / the look-up gives the value / the value is among the values
+    let k ← getStr j "k"
+    let v ← getInt j "v"
+    let sp : Bool := if f == "keys_has" then OMap.has norm ma k
+      else if f == "items_has" then OMap.get norm ma k == some v
+      else (OMap.values ma).contains v
+    let out : Json :=
+      if acls == "ddict" then
+        let d := (CIDict.DD.run norm Gen.c13IntFactory (CIDict.ofPairs norm a) aops).1
+        Json.bool (if f == "keys_has" then CIDict.keysViewHas norm d k
+          else if f == "items_has" then CIDict.DD.itemsViewHas norm Gen.c13IntFactory d k v
+          else CIDict.DD.valuesViewHas norm Gen.c13IntFactory d v)
+      else
+        let d := (CIDict.run norm (CIDict.ofPairs norm a) aops).1
+        if f == "keys_has" then Json.bool (CIDict.keysViewHas norm d k)
+        else if f == "items_has" then Json.bool (CIDict.itemsViewHas norm d k v)
+        else match CIDict.valuesViewHas norm d v with
+          | some b => Json.bool b
+          | none => Json.str "KeyError"
+    return obj [("out", out), ("spec", Json.bool sp)]
+  let bcls ← (← j.getObjVal? "bcls").getStr?
+  let b ← parsePairs (← getArr j "b")
+  let (ib, sb) : Option (List (Str × Int)) × Bool :=
+    if bcls == "plain" then
+      (some b, ((OMap.items ma).all fun p => b.contains p) && (b.all fun p => (OMap.items ma).contains p))
+    else
+      let r := mapOperand bcls b []
+      (r.1, OMap.specEq ma r.2)
+  let res : Option Bool := match ia, ib with
+    | some x, some y => some (eqItems x y)
+    | _, _ => none
+  let neg := f == "ne"
+  match res with
+  | some r => pure (obj [("out", Json.bool (r != neg)), ("spec", Json.bool (sb != neg))])
+  | none => pure (obj [("out", Json.str "KeyError"), ("spec", Json.bool (sb != neg))])
+
+/-- `citables`: the two private tables after a history (`_dict` and `_keys` of a mapping in their dict order; `_set` (order not
+modelled) and `_keys` of the set): the state of the model IS the state of the code, so it can be compared directly -/
+def citables (j : Json) : Except String Json := do
+  let cls ← (← j.getObjVal? "cls").getStr?
+  let spJ (l : List (Str × Str)) : Json := arr (l.map fun p => arr [strToJson p.1, strToJson p.2])
+  if cls == "set" then
+    let init ← getStrList j "init"
+    let ops ← (← getArr j "ops").mapM parseSOp
+    let s := (CISet.run norm (CISet.ofList norm init) ops).1
+    pure (obj [("out", obj [("set", strs s.set), ("keys", spJ s.keys)])])
+  else
+    let init ← parsePairs (← getArr j "init")
+    let ops ← (← getArr j "ops").mapM parseOp
+    let d := if cls == "ddict" then (CIDict.DD.run norm Gen.c13IntFactory (CIDict.ofPairs norm init) ops).1
+             else (CIDict.run norm (CIDict.ofPairs norm init) ops).1
+    pure (obj [("out", obj [("dict", itemsJ d.dict), ("keys", spJ d.keys)])])
+
+end Pybtex.Drv.C13
+
+namespace Pybtex.Drv.C13
+def handlers : List (String × (Json → Except String Json)) := [("cimap", cimap), ("ciset", ciset), ("cilower", lowerOp), ("cisetbin", cisetbin), ("cimapx", cimapx), ("citables", citables)]
 end Pybtex.Drv.C13
